@@ -8,6 +8,6 @@ ASSUMPTIONS = conn.COMMON_ASSUMPTIONS
 
 
 def targets(eng):
-    return conn.targets_for(eng, ["_wrap_fatal_connection_exception", "_cleanup", "report_fatal_error", "send_messages", "_set_connection_state",
+    return conn.targets_for(eng, ["__init__", "_wrap_fatal_connection_exception", "_cleanup", "report_fatal_error", "send_messages", "_set_connection_state",
                                   "_connect_resolve_host", "_connect_socket_connect", "_connect_init_frame_helper", "start_connection", "finish_connection",
                                   "handle_timeout", "handle_complex_message", "lemmas:C11", "send_messages_await_response_complex", "send_message_await_response", "disconnect"], ["C09"])
